@@ -5,5 +5,5 @@ KDA == {"DA"}
 KStack == {"DA2S", "DAMI"}
 KCross == {"CROSS", "CROSSLAG"}
 KList == {"LIST2"}
-Emit == phase = "done" => PrintT(<<"@@", ToJson([kind |-> kind, nan |-> mask, rx |-> rx, ry |-> ry, pred |-> pred])>>)
+Emit == phase = "done" => PrintT(<<"@@", ToJson([kind |-> kind, nan |-> mask, wz |-> wz, rx |-> rx, ry |-> ry, pred |-> pred])>>)
 =============================================================================
